@@ -290,11 +290,11 @@ def check_model(ctx, recs):
             # a present partition at or beyond the extent: exactly the class of the known finding (the interval before it is not clipped)
             f = ctx.match_finding({"predicates": preds, "signature": "out-of-extent-only"})
             if f:
-                ctx.known(f, f["what"], failed_obligations=1 + (0 if (skel_ok and real == run_) else 1)); continue
+                ctx.known(f, f["what"], failed_obligations=(not ok_h) + (not ok_thm) + (not ok_model)); continue
         if not ok_h and "term_without_fiber_at_loop" in preds:
             f = ctx.match_finding({"predicates": preds, "signature": "wrong-values"})
             if f:
-                ctx.known(f, f["what"], failed_obligations=1); continue
+                ctx.known(f, f["what"], failed_obligations=(not ok_h) + (not ok_thm) + (not ok_model)); continue
         if not ok_h:
             ctx.violation(dict(rep, kind="model-hypotheses", obligation="C04.HypsA decided on the sampled specification and input",
                                reason="the hypotheses of C04.runA_eq_meaningA do not hold for this generated sample (generator or model compiler out of step)"), False)
